@@ -185,7 +185,12 @@ def shape(e, roles=None, depth=20):
             if v == "try":
                 return _try_shape(shape(inner.x, roles, depth - 1))
             return "%s(%s)" % (v, shape(inner.x, roles, depth - 1))
-        return "%s.%s" % (shape(e.x, roles, depth - 1), e.name)
+        xs_ = shape(e.x, roles, depth - 1)
+        if xs_.startswith("tuple(") and xs_.endswith(")") and str(e.name).isdigit() and _balanced(xs_[6:-1]):
+            parts_ = _split_args(xs_[6:-1])
+            if int(e.name) < len(parts_):
+                return parts_[int(e.name)]  # a component of a tuple built right there (a helper returning a pair)
+        return "%s.%s" % (xs_, e.name)
     if isinstance(e, Index):
         xs = shape(e.x, roles, depth - 1)
         is_ = shape(e.i, roles, depth - 1)
@@ -962,6 +967,16 @@ def _try_shape(inner):
     m = _re.match(r"^slice::first\((.*)\)$", inner)
     if m and _balanced(m.group(1)):
         return "%s[0]" % m.group(1)
+    # the payload of `opt.as_ref()` is the payload of `opt` (by reference): `x.as_ref()?` reads like `let Some(y) = &x`
+    m = _re.match(r"^Option::as_ref\((.*)\)$", inner)
+    if m and _balanced(m.group(1)):
+        return "try(%s)" % m.group(1)
+    # `opt.ok_or(e)?` / `opt.ok_or_else(f)?`: the success payload is the payload of `opt`
+    m = _re.match(r"^Option::(ok_or|ok_or_else)\((.*)\)$", inner)
+    if m:
+        parts = _split_args(m.group(2))
+        if len(parts) == 2 and _balanced(parts[0]):
+            return _try_shape(parts[0])
     return "try(%s)" % inner
 
 
@@ -993,6 +1008,38 @@ def test_forms(shape_str):
 
 def same_test(a, b):
     return bool(test_forms(a) & test_forms(b))
+
+
+def tuple_component(e):
+    """`pair.k` where the pair is a tuple literal built at one place (also behind `?` on an `Ok((a, b))` that an
+    inlined helper returned): the k-th operand itself, so that its own definitions can be looked at. Otherwise e."""
+    x = e
+    while isinstance(x, Named):
+        x = x.x
+    if not isinstance(x, Field) or not str(x.name).isdigit():
+        return e
+    base = x.x
+    for _ in range(6):
+        while isinstance(base, (Named, Ref, Deref)):
+            base = base.x
+        if isinstance(base, Field) and base.idx == 0 and isinstance(base.x, Downcast):
+            inner = base.x.x
+            while isinstance(inner, (Named, Ref, Deref)):
+                inner = inner.x
+            if isinstance(inner, Call) and nice(inner.callee) == "Try::branch" and inner.args:
+                inner = inner.args[0]
+                while isinstance(inner, (Named, Ref, Deref)):
+                    inner = inner.x
+            if isinstance(inner, Var) and getattr(inner, "ok_payload", None) is not None:
+                base = inner.ok_payload
+                continue
+            if isinstance(inner, Agg) and inner.ak == "adt" and inner.variant in ("Ok", "Some") and inner.ops:
+                base = inner.ops[0]
+                continue
+        break
+    if isinstance(base, Agg) and base.ak == "tuple" and int(x.name) < len(base.ops):
+        return base.ops[int(x.name)]
+    return e
 
 
 def callable_body(e):
